@@ -26,7 +26,12 @@ Definition ex_root (k : kind) (a : list (akey * aval)) (name : text) : cls :=
 Definition ex0 : store :=
   mkstore [ex_root KComplex ex_common [67]; ex_root KArray ex_common [65]; ex_root KArray ex_common [73];
            ex_root (KSimple FDecimal) (ex_number 1024) [105]; ex_root (KSimple FUnicode) ex_text [115]]
-          [] [] [].
+          [] [] [] [(0, [(K_MIN_OCCURS, VInt 1)]); (1, [])].
+
+(** the same pool plus ByteArray (#5), for the call syntax *)
+Definition ex0b : store :=
+  mkstore (cl ex0 ++ [ex_root (KSimple FByteArray) (ex_common ++ [(K_ENCODING, VStr t_enc_default)]) [98]])
+          [] [] [] (protos ex0).
 
 (** class K(ComplexModel): a = Integer; b = Unicode   -> 5
     K.customize(min_occurs=1, child_attrs={'a': {min_occurs: 1}})   -> 6 (and 7 for the field)
